@@ -430,3 +430,102 @@ func H_C08_Lookups(shape int) {
 	}
 	verifrt.Assert(n >= 1, "C08.no-lookup-query")
 }
+
+// ---- nested relation joins: every soft-deletable hop of the path keeps its deleted rows
+// out of the join (and none does under Unscoped)
+
+type JLeaf struct {
+	ID        uint
+	Name      string
+	DeletedAt gorm.DeletedAt
+}
+
+type JMid struct {
+	ID        uint
+	LeafID    uint
+	Leaf      *JLeaf
+	DeletedAt gorm.DeletedAt
+}
+
+type JTop struct {
+	ID    uint
+	MidID uint
+	Mid   *JMid
+}
+
+var c08Nested = []string{"joins-path", "innerjoins-path", "joins-hop-then-path", "joins-path-conds"}
+
+func N_C08_NestedJoin(tier int) int { return 2 * len(c08Nested) }
+
+func H_C08_NestedJoin(shape int) {
+	kind := c08Nested[shape%len(c08Nested)]
+	unscoped := shape >= len(c08Nested)
+	verifrt.Tag(kind + map[bool]string{false: "", true: ".Unscoped"}[unscoped])
+	base := openDry(stubDialector{})
+	db := base.Model(&JTop{})
+	if unscoped {
+		db = db.Unscoped()
+	}
+	switch kind {
+	case "joins-path":
+		db = db.Joins("Mid.Leaf")
+	case "innerjoins-path":
+		db = db.InnerJoins("Mid.Leaf")
+	case "joins-hop-then-path":
+		db = db.Joins("Mid").Joins("Mid.Leaf")
+	case "joins-path-conds":
+		db = db.Joins("Mid.Leaf", base.Where("name = ?", "n").Or("name = ?", "m"))
+	}
+	var out []JTop
+	stmt := db.Find(&out).Statement
+	sql := stmt.SQL.String()
+	verifrt.Observe("sql", sql)
+	verifrt.Assert(stmt.Error == nil, "C08.join-error")
+	// one ON text per joined hop
+	var ons []string
+	rest := sql
+	for {
+		i := indexStr(rest, " JOIN ")
+		if i < 0 {
+			break
+		}
+		rest = rest[i+len(" JOIN "):]
+		j := indexStr(rest, " ON ")
+		if j < 0 {
+			break
+		}
+		on := rest[j+len(" ON "):]
+		for _, stop := range []string{" LEFT JOIN ", " INNER JOIN ", " WHERE "} {
+			if k := indexStr(on, stop); k >= 0 {
+				on = on[:k]
+			}
+		}
+		ons = append(ons, on)
+	}
+	verifrt.Assert(len(ons) == 2, "C08.join-no-on")
+	for i, alias := range []string{"`Mid`", "`Mid__Leaf`"} {
+		if i >= len(ons) {
+			break
+		}
+		g := indexStr(ons[i], alias+".`deletedat` IS NULL")
+		if unscoped {
+			verifrt.Assert(g < 0, "C08.join-unscoped-rows")
+			continue
+		}
+		verifrt.Assert(g >= 0, "C08.join-deleted-row-visible")
+		// the guard is a conjunct of its own
+		depth, top := 0, true
+		for k := 0; k < len(ons[i]); k++ {
+			switch ons[i][k] {
+			case '(':
+				depth++
+			case ')':
+				depth--
+			}
+			if depth == 0 && k+4 <= len(ons[i]) && ons[i][k:k+4] == " OR " {
+				top = false
+			}
+		}
+		verifrt.Assert(top, "C08.join-deleted-row-visible")
+	}
+}
